@@ -8,9 +8,9 @@ cmake --build _build -j${JOBS:-6} > _build/build.log 2>&1 || { echo "build faile
 fail=0
 for t in test_ppolyND test_Grad test_bc_grad test_cost_grad test_cubic_spline_vs_minco_nd test_quintic_spline_vs_minco_nd test_septic_spline_vs_minco_nd test_with_min_jerk_3d test_with_min_snap_3d; do
   out=$(timeout 900 ./_build/$t 2>&1); rc=$?
-  npass=$(printf '%s\n' "$out" | grep -c 'PASS'); nfail=$(printf '%s\n' "$out" | grep -c 'FAIL')
+  npass=$(printf '%s\n' "$out" | grep -c 'PASS'); nfail=$(printf '%s\n' "$out" | grep -c -E 'FAIL|失败')
   echo "$t rc=$rc pass_lines=$npass fail_lines=$nfail"
-  if [ $rc -ne 0 ] || [ $nfail -ne 0 ]; then fail=1; printf '%s\n' "$out" | grep 'FAIL' | head -5; fi
+  if [ $rc -ne 0 ] || [ $nfail -ne 0 ]; then fail=1; printf '%s\n' "$out" | grep -E 'FAIL|失败' | head -5; fi
 done
 [ $fail -eq 0 ] && echo "SUITE OK" || echo "SUITE FAILED"
 exit $fail
